@@ -281,7 +281,7 @@ func runC03(w *W) {
 	}
 	// 3. random doubles, 17 digits and shortest, several spellings
 	r := w.rng("c03floats")
-	nRand := 1000000
+	nRand := 3000000
 	if th {
 		nRand = 40000000
 	}
@@ -304,7 +304,7 @@ func runC03(w *W) {
 		}
 	}
 	// 4. halfway cases between adjacent doubles
-	nHalf := 30000
+	nHalf := 100000
 	if th {
 		nHalf = 1200000
 	}
